@@ -767,3 +767,18 @@ Proof.
   - apply Nat.eqb_eq. exact H10.
   - destruct (payload v); [discriminate|discriminate].
 Qed.
+
+(* the non-governance batch over a history: the requested sequences that were stored in that stream, in request order,
+   each with the bytes last stored under its identifier *)
+Theorem rpc_batch_history vs ec a tc seqs : Forall wf vs -> length a = 32%nat -> 0 <= ec < 65536 -> 0 <= tc < 65536 ->
+  Forall (fun q => 0 <= q) seqs -> Z.of_nat (length seqs) <= rpc_max_batch ->
+  rpc_nongov_batch (store_all [] vs) ec (hex a) tc seqs =
+  ROk (flat_map (fun q => match last_stored vs {| i_ec := ec; i_ea := a; i_tc := tc; i_seq := q |} with
+                          | Some v => [(q, marshal v)] | None => [] end) seqs).
+Proof.
+  intros W Ha Hc Ht Hq Hn. unfold rpc_nongov_batch. destruct (Z.ltb_spec rpc_max_batch (Z.of_nat (length seqs))); [lia|].
+  rewrite (decode_emitter_hex a Ha). f_equal. unfold batch_lookup, rpc_id. rewrite !chain16_small by assumption.
+  induction seqs as [|q seqs IH]; [reflexivity|]. inversion Hq as [|? ? Hq0 Hq']; subst. cbn [flat_map].
+  rewrite (lookup_history vs _ W) by (unfold idwf; cbn [i_ec i_ea i_tc i_seq]; repeat split; lia).
+  rewrite IH by (try exact Hq'; cbn [length] in *; lia). destruct (last_stored vs _); reflexivity.
+Qed.
